@@ -9,6 +9,7 @@
   of `declare_import`) breaks exactly these obligations.
 -/
 import RotoV.Props.C18
+import RotoV.Props.C18History
 import RotoV.Generated.RegPasses
 
 namespace RotoV.C18
@@ -58,6 +59,37 @@ theorem reachable_impl_items_on_source (lex : Name → Lex) (st st' : St) (hw : 
   intro n ps r tag hm
   obtain ⟨ps', r', _, _, h3⟩ := (reachable_impl_items lex st st' hw items h ht hi).1 n ps r tag hm
   exact ⟨ps', r', h3⟩
+
+/-- **`Rt::add` is all or nothing on the source** (`facts.addAtomic`, read from
+    the body of `Rt::add`: the passes run on a copy of the runtime that replaces
+    it only when every pass succeeded).  On the source as it is, a rejected add
+    leaves the runtime as it was, and a history is the history of its accepted
+    libraries; had the passes run in place (the pinned tree, or a change that
+    drops the copy), `facts.addAtomic` is `false`, `passes_as_modelled` fails and
+    these two no longer check (`pinned_in_place_rejected_add_leaves_items` shows
+    what such a runtime does). -/
+theorem failed_add_is_noop_on_source (lex : Name → Lex) (st : St) (items : Items)
+    (h : (stepSrc RotoV.Gen.RegPasses.facts.cfg lex RotoV.Gen.RegPasses.facts.addAtomic st items).2 ≠ .ok) :
+    (stepSrc RotoV.Gen.RegPasses.facts.cfg lex RotoV.Gen.RegPasses.facts.addAtomic st items).1 = st := by
+  have ha : RotoV.Gen.RegPasses.facts.addAtomic = true := by decide
+  rw [source_cfg, ha] at h ⊢
+  exact failed_add_is_noop lex st items h
+
+theorem history_as_if_never_offered_on_source (lex : Name → Lex) (libs : List Items) (st : St) :
+    (sessionSrc RotoV.Gen.RegPasses.facts.cfg lex RotoV.Gen.RegPasses.facts.addAtomic st
+        (accepted Cfg.fixed lex st libs)).1 =
+      (sessionSrc RotoV.Gen.RegPasses.facts.cfg lex RotoV.Gen.RegPasses.facts.addAtomic st libs).1 := by
+  have ha : RotoV.Gen.RegPasses.facts.addAtomic = true := by decide
+  rw [source_cfg, ha]
+  simp only [sessionSrc, if_true]
+  rw [history_as_if_never_offered]
+
+/-- what the same statements say of a source whose passes run in place: false
+    (`stepSrc … false` is `stepIP`) -/
+example : ∃ items,
+    (stepSrc Cfg.fixed lexV false st0 items).2 ≠ .ok ∧
+    resolvePath (stepSrc Cfg.fixed lexV false st0 items).1 [2] ≠ resolvePath st0 [2] :=
+  ⟨il [fn0 2 5, .function 4 [.reg 9] .unit 6], by decide, by decide⟩
 
 /-- Had the impl block been resolved where it stands (`Cfg.implAtSite`, what
     the facts of seeded change C18-1 translate to): the library `libImpl`
